@@ -53,7 +53,7 @@ theorem handleCommand_desE {s s' : Srv.State} {now sid : Nat} {name : Bytes} {ti
     (repeat' split at h)
     all_goals first
       | (simp at h; done)
-      | (simp only [Except.ok.injEq, Prod.mk.injEq] at h; rw [← h.1])
+      | (simp only [Except.ok.injEq, Prod.mk.injEq] at h; rw [← h.1]; done)
   · split at h
     · simp only [Except.ok.injEq] at h
       have := closeOrDelete_desE s args false
@@ -79,7 +79,7 @@ theorem handleCommand_desE {s s' : Srv.State} {now sid : Nat} {name : Bytes} {ti
               (repeat' split at h)
               all_goals first
                 | exact errorOut_desE h
-                | (simp only [Except.ok.injEq, Prod.mk.injEq] at h; rw [← h.1])
+                | (simp only [Except.ok.injEq, Prod.mk.injEq] at h; rw [← h.1]; done)
           · split at h
             · unfold Srv.cmdPublish at h
               match args, h with
@@ -91,7 +91,7 @@ theorem handleCommand_desE {s s' : Srv.State} {now sid : Nat} {name : Bytes} {ti
                 all_goals first
                   | exact errorOut_desE h
                   | (simp at h; done)
-                  | (simp only [Except.ok.injEq, Prod.mk.injEq] at h; rw [← h.1])
+                  | (simp only [Except.ok.injEq, Prod.mk.injEq] at h; rw [← h.1]; done)
                   | (rename_i s2 p hs
                      simp only [Except.ok.injEq, Prod.mk.injEq] at h; rw [← h.1]
                      (have hd := send_desE hs; exact hd))
@@ -108,7 +108,7 @@ theorem handleMessage_desE {s s' : Srv.State} {now : Nat} {p : Msg} {m : RtmpMsg
     simp only at h
     cases ev <;> simp only at h
     all_goals first
-      | (simp only [Except.ok.injEq, Prod.mk.injEq] at h; rw [← h.1])
+      | (simp only [Except.ok.injEq, Prod.mk.injEq] at h; rw [← h.1]; done)
       | (split at h
          · simp at h
          · rename_i s2 pk hs
